@@ -70,13 +70,15 @@ def _sym_pattern(a):
 
 
 def _is_simple(a):
-    """symmetric, loop-free, positive after summing duplicates and dropping stored zeros"""
+    """symmetric, loop-free, every stored entry >= 0 (stored zeros and duplicate entries allowed)"""
     b = sparse.csr_matrix(a).astype(float)
     b = sparse.csr_matrix((b.data.copy(), b.indices.copy(), b.indptr.copy()), shape=b.shape)
     b.sum_duplicates()
     b.eliminate_zeros()
     if b.shape[0] != b.shape[1]:
         return False
+    if a.nnz and not (np.asarray(sparse.csr_matrix(a).data, dtype=float) >= 0).all():
+        return False      # a negative stored entry (even one that a duplicate cancels) is not a simple graph's storage
     return bool(abs(b - b.T).nnz == 0 and b.diagonal().sum() == 0 and (b.nnz == 0 or (b.data > 0).all()))
 
 
@@ -274,8 +276,15 @@ def cases_for_graph(ctx, a, rng, name='', simple=True, ks=None, funcs=('tri', 'c
         c.eliminate_zeros()
         loopfree = not (c.diagonal() != 0).any()
         pat = sparse.csr_matrix(((c.data != 0).astype(float), c.indices, c.indptr), shape=c.shape)
-        # symmetric pattern that is also the pattern of A + A^T (no cancellation between the two directions)
-        symmetric = abs(pat - pat.T).nnz == 0 and (pat.nnz - int((c.diagonal() != 0).sum())) == s.nnz
+        raw = sparse.csr_matrix(a).astype(float)
+        anyp = sparse.csr_matrix(((raw.data != 0).astype(float), raw.indices.copy(), raw.indptr.copy()), shape=raw.shape)
+        anyp.sum_duplicates()
+        anyp.eliminate_zeros()
+        anyp.data[:] = 1.0            # get_dag: astype(bool) entry by entry, so (1, -1) stored twice is an edge
+        # symmetric pattern that is also the pattern of A + A^T and of the stored non-zero entries (no cancellation
+        # between the two directions nor between duplicate entries)
+        symmetric = (abs(pat - pat.T).nnz == 0 and (pat.nnz - int((c.diagonal() != 0).sum())) == s.nnz
+                     and abs(anyp - pat).nnz == 0)
     if 'tri' in funcs:
         for par in (False, True):
             impl = _call(lambda: 'ok %d' % count_triangles(a, parallelize=par))
@@ -321,6 +330,11 @@ def cases_for_graph(ctx, a, rng, name='', simple=True, ks=None, funcs=('tri', 'c
         for k in (ks if ks is not None else range(2, n + 2)):
             impl = _call(lambda: 'ok %d' % count_cliques(a, k))
             run = 'c11.cliques %s %d' % (g, k)
+            if not symmetric and k >= 2:
+                # on a non-symmetric matrix the count depends on how argsort orders equal core values: the model is
+                # run with the permutation numpy returns
+                core = _call(lambda: get_core_decomposition(a))
+                run = None if isinstance(core, str) else 'c11.cliques_with %s %d %s' % (g, k, enc_list(np.argsort(core)))
             spec = None
             if impl.startswith('ok ') and symmetric:
                 spec = 'c11.spec_cliques %s %d %s' % (sp, k, impl[3:])
@@ -704,32 +718,103 @@ def hub_graph(m, extra):
     return a
 
 
-def hub_cases(ctx, desc):
-    """Graphs too large for the brute-force specification: the triangle count is known in closed form (one per extra
-    edge), the coefficient is evaluated by the Lean side from the triangle count and the exact degree sequence
-    (`clusteringFromDegrees`, equal to the specification by `clusteringSpec_from_degrees`)."""
-    from sknetwork.topology import count_triangles, get_clustering_coefficient
-    m, extra = desc['m'], [tuple(e) for e in desc['extra']]
-    _progress(desc)
-    a = hub_graph(m, extra)
-    degs = np.diff(a.indptr).tolist()
-    t = len(extra)
-    out = []
-    sig = {'entry': 'get_clustering_coefficient', 'parallelize': False, 'scope': 'simple', 'stream': 'hub'}
+def hub_compute(desc):
+    """Call the implementation on one hub graph (slow: the kernels copy `indptr`/`indices` for every node, about 27 s
+    for 46 343 nodes). Returns the implementation's answer as text."""
+    from sknetwork.topology import get_clustering_coefficient
+    a = hub_graph(desc['m'], [tuple(e) for e in desc['extra']])
 
     def f_cc():
         import warnings
         with warnings.catch_warnings():
             warnings.simplefilter('ignore')
             return 'ok ' + _enc_float(get_clustering_coefficient(a))
-    impl = _call(f_cc)
+    return _call(f_cc)
+
+
+def hub_cases(ctx, desc, impl=None):
+    """Graphs too large for the brute-force specification: the triangle count is known in closed form (one per extra
+    edge), the coefficient is evaluated by the Lean side from that count and the exact degree sequence
+    (`clusteringFromDegrees`, equal to the specification by `clusteringSpec_from_degrees`). A wrong triangle count
+    shows in the coefficient as well."""
+    m, extra = desc['m'], [tuple(e) for e in desc['extra']]
+    if impl is None:
+        _progress(desc)
+        impl = hub_compute(desc)
+    degs = [m] + [1] * m
+    for (i, j) in extra:
+        degs[i] += 1
+        degs[j] += 1
+    t = len(extra)
+    sig = {'entry': 'get_clustering_coefficient', 'parallelize': False, 'scope': 'simple', 'stream': 'hub'}
     spec = 'c11.spec_cc_deg %d %s %s' % (t, enc_list(degs), impl[3:]) if impl.startswith('ok ') else REFUSED
-    out.append(Case(('hub-cc', m, tuple(extra)), sig, None, impl, spec, True, desc))
-    impl = _call(lambda: 'ok %d' % count_triangles(a))
-    spec = ('c11.spec_closed %d %s' % (t, impl[3:])) if impl.startswith('ok ') else REFUSED
-    out.append(Case(('hub-tri', m, tuple(extra)), {'entry': 'count_triangles', 'parallelize': False, 'scope': 'simple',
-                                                   'stream': 'hub'}, None, impl, spec, True, desc))
+    return [Case(('hub-cc', m, tuple(extra)), sig, None, impl, spec, True, desc)]
+
+
+_HUB_WORKER = r'''
+import sys, json
+sys.path.insert(0, sys.argv[1]); sys.path.insert(0, sys.argv[2])
+import sknetwork
+assert sknetwork.__file__.startswith(sys.argv[1]), sknetwork.__file__
+from harness import c11
+out = []
+for i, d in enumerate(json.load(sys.stdin)):
+    sys.stderr.write('#%d\n' % i); sys.stderr.flush()
+    out.append(c11.hub_compute(d))
+json.dump(out, sys.stdout)
+'''
+
+
+def hub_descs(ctx):
+    hubs = ([(46342, [(1, 2)])] if ctx.quick else
+            [(46341, [(1, 2)]), (46342, [(1, 2)]), (50000, [(1, 2), (2, 3)]), (70000, [(1, 2), (3, 4)]),
+             (100000, [(5, 6)])])
+    out = [{'f': 'hub', 'm': m, 'extra': [list(e) for e in extra]} for m, extra in hubs]
+    # hub witnesses of the corpus run here too (a hub costs half a minute: they stay out of the serial stream)
+    p = os.path.join(VERIF, 'corpus', 'C11.jsonl')
+    if os.path.exists(p):
+        for ln in open(p):
+            ln = ln.strip()
+            if ln and not ln.startswith('#'):
+                d = json.loads(ln)
+                if d.get('f') == 'hub' and not any(o['m'] == d['m'] and o['extra'] == d['extra'] for o in out):
+                    out.append({'f': 'hub', 'm': d['m'], 'extra': d['extra']})
     return out
+
+
+def hub_start(ctx):
+    """The hub stream runs in its own process, beside the rest of the check."""
+    descs = hub_descs(ctx)
+    env = dict(os.environ)
+    env['OMP_NUM_THREADS'] = '1'
+    p = subprocess.Popen(['/venv/bin/python', '-c', _HUB_WORKER, ctx.overlay_root, os.path.join(VERIF, 'tools')],
+                         stdin=subprocess.PIPE, stdout=subprocess.PIPE, stderr=subprocess.PIPE, text=True, env=env)
+    p.stdin.write(json.dumps(descs))
+    p.stdin.close()
+    return p, descs
+
+
+def hub_finish(ctx, started):
+    p, descs = started
+    try:
+        p.wait(timeout=900 if ctx.quick else 3000)
+    except subprocess.TimeoutExpired:
+        p.kill()
+        raise ToolFailure('timeout: the hub stream did not finish in time')
+    out, err = p.stdout.read(), p.stderr.read()
+    cases = []
+    if p.returncode < 0:
+        marks = [ln for ln in err.split('\n') if ln.startswith('#')]
+        i = int(marks[-1][1:]) if marks else 0
+        ctx.spec_fail({'entry': 'crash', 'signal': -p.returncode, 'stream': 'hub'}, descs[i],
+                      {'what': 'the implementation was killed by signal %d on this hub graph' % -p.returncode})
+        return cases
+    if p.returncode != 0:
+        raise ToolFailure('hub worker failed: %s' % err[-1500:])
+    for d, impl in zip(descs, json.loads(out)):
+        cases += hub_cases(ctx, d, impl)
+        ctx.count('hub (degree >= 46341)')
+    return cases
 
 
 def build_cases(ctx):
@@ -844,12 +929,6 @@ def build_cases(ctx):
         cases += cases_for_graph(ctx, a, rng, 'degenerate%d' % n, _is_simple(a), None,
                                  ('tri', 'cc', 'core', 'cliques', 'dag'))
         ctx.count('degenerate (directed / loops / negative / cancelling)')
-    # hubs: a node of degree >= 46342 (the square of the degree passes 2^31)
-    for m, extra in ([(46342, [(1, 2)]), (50000, [(1, 2), (2, 3)])] if quick else
-                     [(46341, [(1, 2)]), (46342, [(1, 2)]), (50000, [(1, 2), (2, 3)]), (70000, [(1, 2), (3, 4)]),
-                      (100000, [(5, 6)])]):
-        cases += hub_cases(ctx, {'f': 'hub', 'm': m, 'extra': [list(e) for e in extra]})
-        ctx.count('hub')
     # larger graphs (heap depth >= 4, several levels of the clique recursion)
     for name, a in random_graphs(ctx, rng, 5 if quick else 60, 24, 36 if quick else 40):
         cases += cases_for_graph(ctx, a, rng, name, True, [2, 3, 4, rng.choice([5, 6])],
@@ -1009,7 +1088,10 @@ def _corpus_cases(ctx):
         for ln in open(p):
             ln = ln.strip()
             if ln and not ln.startswith('#'):
-                cases += _cases_of_desc(ctx, json.loads(ln))
+                d = json.loads(ln)
+                if d.get('f') == 'hub':
+                    continue          # runs in the hub worker (hub_descs)
+                cases += _cases_of_desc(ctx, d)
                 ctx.count('corpus')
     return cases
 
@@ -1059,11 +1141,13 @@ def _build_all(ctx):
 
 def run(ctx):
     check_prange(ctx)
+    hubs = hub_start(ctx)
     cases, crash = in_child(ctx, lambda: _build_all(ctx))
     if crash:
         report_crash(ctx, crash)
     evaluate(ctx, cases)
     thread_sweep(ctx, sweep_graphs(ctx, ctx.rng), reps=2 if ctx.quick else 4)
+    evaluate(ctx, hub_finish(ctx, hubs))
     ctx.exhaustive = False
 
 
@@ -1089,8 +1173,7 @@ def search(ctx, pending):
                 v, b = variants(sub, a, rng)
                 cases += [c for c in cases_for_graph(sub, b, rng, name + ':' + v, True, [2, 3, 4],
                                                      ('tri', 'cc', 'core', 'cliques')) if c.spec]
-        for m in (46342, 60000):
-            cases += hub_cases(sub, {'f': 'hub', 'm': m, 'extra': [[1, 2]]})
+        cases += hub_cases(sub, {'f': 'hub', 'm': 46342, 'extra': [[1, 2]]})
         return cases
     cases, crash = in_child(sub, build)
     if crash:
